@@ -3,7 +3,7 @@
 cd "$(dirname "$0")/.."
 export VERIF_OUT=$(mktemp -d)
 for seed in ${SEEDS:-1 2 3 4 5 6 7 8}; do
-  for p in $(seq -f "C%02g" 1 19); do
+  for p in ${PROPS:-$(seq -f "C%02g" 1 19)}; do
     out=$(VERIF_SEED=$seed ./check $p --tier ${TIER:-quick} 2>&1); rc=$?
     if [ $rc -ne 0 ]; then echo "seed=$seed $p exit=$rc"; echo "$out" | grep -v KNOWN | tail -5; fi
   done
